@@ -461,7 +461,13 @@ class Check:
                     ev["corr_compared"] += 1
                     if canon(mres) != canon(res) and len(diffs) < 50:
                         diffs.append({"case": case, "impl": res, "model": mres, "source": source})
-            for msg in self.oracle(case, res):
+            try:
+                msgs = list(self.oracle(case, res))
+            except MachineryError:
+                raise
+            except Exception as ex:   # the implementation produced something the oracle cannot even read
+                msgs = [f"the oracle could not judge the implementation's result ({type(ex).__name__}: {str(ex)[:160]})"]
+            for msg in msgs:
                 sig = self.signature(case, msg)
                 sig_count[sig] = sig_count.get(sig, 0) + 1
                 if sig_count[sig] <= 3 and len(viols) < 600:   # per-signature cap: a frequent class cannot crowd out a new one
